@@ -36,12 +36,7 @@ impl EditState {
             }
             crate::FontMode::Unlimited | crate::FontMode::FixedSize => {
                 let new_font = BitFont::from_ansi_font_page(page)?;
-                if let Some(font) = self.get_buffer().get_font(0) {
-                    let op = super::undo_operations::SetFont::new(self.caret.get_font_page(), font.clone(), new_font);
-                    self.push_undo_action(Box::new(op))
-                } else {
-                    Err(anyhow::anyhow!("No font found in buffer."))
-                }
+                self.set_font_at_caret_page(new_font)
             }
         }
     }
@@ -59,12 +54,7 @@ impl EditState {
             }
             crate::FontMode::Unlimited | crate::FontMode::FixedSize => {
                 let new_font = BitFont::from_sauce_name(name)?;
-                if let Some(font) = self.get_buffer().get_font(0) {
-                    let op = super::undo_operations::SetFont::new(self.caret.get_font_page(), font.clone(), new_font);
-                    self.push_undo_action(Box::new(op))
-                } else {
-                    Err(anyhow::anyhow!("No font found in buffer."))
-                }
+                self.set_font_at_caret_page(new_font)
             }
         }
     }
@@ -98,14 +88,22 @@ impl EditState {
                     Err(anyhow::anyhow!("No font found in buffer."))
                 }
             }
-            crate::FontMode::Unlimited | crate::FontMode::FixedSize => {
-                if let Some(font) = self.get_buffer().get_font(0) {
-                    let op = super::undo_operations::SetFont::new(self.caret.get_font_page(), font.clone(), new_font);
-                    self.push_undo_action(Box::new(op))
-                } else {
-                    Err(anyhow::anyhow!("No font found in buffer."))
-                }
-            }
+            crate::FontMode::Unlimited | crate::FontMode::FixedSize => self.set_font_at_caret_page(new_font),
+        }
+    }
+
+    /// Replaces the font of the caret's font page; the undo record keeps the font that page held (not font 0),
+    /// and a page without a font gets the font added.
+    fn set_font_at_caret_page(&mut self, new_font: BitFont) -> EngineResult<()> {
+        let page = self.caret.get_font_page();
+        if let Some(font) = self.get_buffer().get_font(page) {
+            let op = super::undo_operations::SetFont::new(page, font.clone(), new_font);
+            self.push_undo_action(Box::new(op))
+        } else if self.get_buffer().get_font(0).is_some() {
+            let op = super::undo_operations::AddFont::new(page, page, new_font);
+            self.push_undo_action(Box::new(op))
+        } else {
+            Err(anyhow::anyhow!("No font found in buffer."))
         }
     }
 
